@@ -339,6 +339,10 @@ def to_int_term(v):
             return z3.If(v, z3.IntVal(1), z3.IntVal(0))
         if z3.is_int(v):
             return v
+        if z3.is_bv(v):
+            # a machine integer (signed vector, kept in range by no-overflow obligations) used where a mathematical integer is
+            # needed (an index, a length): its signed value
+            return z3.BV2Int(v, True)
     raise EngineError("not an integer value: %s" % type(v).__name__)
 
 
